@@ -77,6 +77,14 @@ let ext_cl (hist : string) (res : string) (out : string) =
         (* also the IDs of what the client itself sent: 1 .. number of calls so far *)
         let ncalls = List.length (List.filter (fun l -> String.length l > 6 && String.sub l 0 6 = "E CALL") prefix) in
         let mids = uniq (mids_of prefix @ List.init (min 6 ncalls) (fun k -> k + 1)) in
+        (* plain silence, long enough for every bound of a blocking call (retry budgets, the connect timeout, a sleep
+           and the 60 s the wake-up waits for its PINGRESP): a call that should have returned by then and has not (C28) *)
+        incr idx;
+        Printf.fprintf oc "H %d %s\n" !idx hrest;
+        List.iter (fun l -> output_string oc (l ^ "\n")) prefix;
+        Printf.fprintf oc "E ADV %d\n" (max ((rcount + 2) * rdelay + 1507) 5407);
+        for k = 1 to 11 do Printf.fprintf oc "E ADV %d\n" (8009 + k) done;
+        output_string oc "END\n";
         List.iter (fun mid ->
             List.iter (fun (ack : packet) ->
                 List.iter (fun d ->
